@@ -76,6 +76,10 @@ class Client:
     def loop_back(self, s):
         return s
 
+    def enter(self, n, s):
+        """Called when control enters statement n in state s; returns the states to continue with."""
+        return [s]
+
 
 class Flow:
     def __init__(self, client, idx=None, max_iter=200):
@@ -112,6 +116,10 @@ class Flow:
             return out
         if not states:
             return out
+        ent = set()
+        for s_ in states:
+            ent |= set(self.c.enter(n, s_))
+        states = ent
         k = n['kind']
         ch = children(n)
         if k == 'CompoundStmt':
